@@ -5,7 +5,17 @@
   the counter-example, and the partial statement per dimension.
 -/
 import TealerModel.Props.Common
+import TealerModel.Props.Tie
 namespace Tealer.C07
+
+/-- tie to today's source (constants and tables imported from /repo on this run) -/
+theorem C07_tie_source :
+    OSet.ofList Generated.ALL_TRANSACTION_TYPES = ALL_TRANSACTION_TYPES ∧
+    OSet.ofList Generated.APPLICATION_TRANSACTION_TYPES = APPLICATION_TRANSACTION_TYPES ∧
+    OSet.ofList Generated.TYPEENUM_TRANSACTION_TYPES = TYPEENUM_TRANSACTION_TYPES ∧
+    (Generated.oncompletionTable.all fun (n, l) => oncompletionToType (.lit n) == some l) = true ∧
+    (Generated.typeEnumTable.all fun (n, l) => typeToType (.lit n) == some l) = true :=
+  ⟨Tie.consts_tie.2.2.2.2.2.2.1, Tie.consts_tie.2.2.2.2.2.2.2.2.1, Tie.consts_tie.2.2.2.2.2.2.2.2.2.1, Tie.enum_tables_tie.1, Tie.enum_tables_tie.2.1⟩
 
 /-- the four kinds the detectors consume, as a function of the governed transaction's fields -/
 def relevantKinds (typeEnum onCompletion : Nat) : List Nat :=
